@@ -155,6 +155,8 @@ def jv_shrinks(j):
         h = j["s"]
         if len(h) > 0:
             yield {"s": ""}
+        if len(h) > 2:
+            yield {"s": h[:2]}
         if len(h) > 4:
             yield {"s": h[:len(h) // 4 * 2]}
     elif isinstance(j, dict) and "i" in j:
